@@ -1120,6 +1120,13 @@ impl<T: Transport, Env: UtpEnvironment> VirtualSocket<T, Env> {
                 self.restart_remote_inactivity_timer();
                 self.state = Established;
             }
+            (SynAckSent { .. }, ST_FIN)
+                if hdr.seq_nr != self.last_consumed_remote_seq_nr + 1 =>
+            {
+                // Same rule as in the established states below: a FIN is honoured only in sequence.
+                trace!(hdr=%hdr.short_repr(), "dropping FIN, unexpected seq_nr");
+                return Ok(Default::default());
+            }
             (SynAckSent { .. }, ST_FIN) => {
                 trace!("state: syn-ack-sent -> closed");
                 self.state = Closed;
